@@ -337,7 +337,7 @@ class FakeGpsd(threading.Thread):
     silent, sends a line that is no JSON, or hangs up. Shared by all sessions of a run; if the
     port is taken (another run is using it) it simply is not started."""
 
-    def __init__(self, lat=52.1, lon=4.1, ip="127.0.0.1", modes=("periodic", "once", "garbage", "hangup", "no_fix", "huge_line", "midline_close", "odd_json", "bytewise"), drift=0.0005):
+    def __init__(self, lat=52.1, lon=4.1, ip="127.0.0.1", modes=("periodic", "once", "garbage", "hangup", "no_fix", "huge_line", "midline_close", "odd_json", "bytewise", "proto2", "bad_handshake"), drift=0.0005):
         super().__init__(daemon=True)
         self.lat, self.lon = lat, lon   # may be changed while running: the next report carries the new fix
         self.ip, self.modes, self.drift = ip, modes, drift
@@ -368,6 +368,16 @@ class FakeGpsd(threading.Thread):
     def _serve(self, c, k):
         try:
             c.settimeout(2.0)
+            mode = self.modes[k % len(self.modes)]
+            if mode == "proto2":
+                # an old gpsd: the handshake of the client library fails (its thread may end - the UI must not)
+                c.sendall(b'{"class":"VERSION","release":"2.96","rev":"2.96","proto_major":2,"proto_minor":9}\r\n')
+                time.sleep(5)
+                return
+            if mode == "bad_handshake":
+                c.sendall(b'{"class":"DEVICES","devices":[]}\r\nnot json at all\r\n')
+                time.sleep(5)
+                return
             c.sendall(b'{"class":"VERSION","release":"3.17","rev":"3.17","proto_major":3,"proto_minor":12}\r\n')
             try:
                 c.recv(200)  # ?WATCH=...
